@@ -51,12 +51,15 @@ func (bucket *Bucket) UUID() (string, error) {
 func (bucket *Bucket) Close(_ context.Context) {
 	traceEnter("Bucket.Close", "%s", bucket)
 
-	unregisterBucket(bucket)
-
 	bucket.mutex.Lock()
-	defer bucket.mutex.Unlock()
-
+	alreadyClosed := bucket.closed
 	bucket.closed = true
+	bucket.mutex.Unlock()
+
+	// Closing a handle twice must not drop the registry's reference count twice.
+	if !alreadyClosed {
+		unregisterBucket(bucket)
+	}
 }
 
 // _closeSqliteDB closes the underlying sqlite database and shuts down dcpFeeds. Must have a lock to call this function.
